@@ -1,9 +1,9 @@
 package rules
 
 import (
-	"sort"
 	"go/token"
 	"go/types"
+	"sort"
 
 	"kmcheck/internal/km"
 
@@ -14,9 +14,9 @@ func init() { km.Register("C14", checkC14) }
 
 const (
 	totpMutexDeclared = KMD + ".RuntimeState.totpLocalTateLimitMutex"
-	secondNS   = int64(1e9)
-	rateInfoT  = KMD + ".totpRateLimitInfo"
-	limiterAll = "(*golang.org/x/time/rate.Limiter).Allow"
+	secondNS          = int64(1e9)
+	rateInfoT         = KMD + ".totpRateLimitInfo"
+	limiterAll        = "(*golang.org/x/time/rate.Limiter).Allow"
 )
 
 func checkC14(c *km.Ctx) {
